@@ -5,6 +5,7 @@ package main
 import (
 	"fmt"
 	"go/ast"
+	"go/token"
 	"go/types"
 	"reflect"
 	"sort"
@@ -738,6 +739,15 @@ func c05R8(c *Ctx) {
 					}
 				}
 			}
+		case *ast.CallExpr:
+			// the same test moved into a predicate that is handed the attached interfaces
+			for ai, a := range t.Args {
+				if identObj(info, a) == attached {
+					if fi := p.FuncOf(Callee(info, t)); fi != nil && absentOnlyAfterScan(fi, ai) {
+						alts = append(alts, "!"+exprString(t))
+					}
+				}
+			}
 		case *ast.RangeStmt:
 			if identObj(info, t.X) == attached {
 				ast.Inspect(t.Body, func(j ast.Node) bool {
@@ -811,4 +821,97 @@ func c05R9(c *Ctx) {
 		}
 	}
 	c.Floor("C05.R9", "persisted fields", 12, n)
+}
+
+// absentOnlyAfterScan: fi returns a bool and says false only (a) as the comma-ok of a lookup in its
+// parameter number pi, or (b) by a constant false that stands after a range over that parameter whose
+// body has no break — "no entry matched"; every other return is a constant true.
+func absentOnlyAfterScan(fi *FuncInfo, pi int) bool {
+	info := fi.Info()
+	sig := fi.Obj.Type().(*types.Signature)
+	if sig.Results().Len() != 1 || pi >= sig.Params().Len() || fi.Decl.Body == nil {
+		return false
+	}
+	if b, ok := sig.Results().At(0).Type().Underlying().(*types.Basic); !ok || b.Kind() != types.Bool {
+		return false
+	}
+	var param types.Object
+	i := 0
+	for _, f := range fi.Decl.Type.Params.List {
+		for _, nm := range f.Names {
+			if i == pi {
+				param = info.Defs[nm]
+			}
+			i++
+		}
+	}
+	if param == nil {
+		return false
+	}
+	okFlags := map[types.Object]bool{}
+	ast.Inspect(fi.Decl.Body, func(k ast.Node) bool {
+		if as, ok := k.(*ast.AssignStmt); ok && len(as.Lhs) == 2 && len(as.Rhs) == 1 {
+			if ix, ok := ast.Unparen(as.Rhs[0]).(*ast.IndexExpr); ok && identObj(info, ix.X) == param {
+				if o := identObj(info, as.Lhs[1]); o != nil {
+					okFlags[o] = true
+				}
+			}
+		}
+		return true
+	})
+	// the scan loops at the top level of the body
+	scanned := token.NoPos
+	for _, st := range fi.Decl.Body.List {
+		if rs, ok := st.(*ast.RangeStmt); ok && identObj(info, rs.X) == param {
+			clean := true
+			ast.Inspect(rs.Body, func(k ast.Node) bool {
+				switch t := k.(type) {
+				case *ast.FuncLit:
+					return false
+				case *ast.BranchStmt:
+					if t.Tok == token.BREAK || t.Tok == token.GOTO {
+						clean = false
+					}
+				}
+				return true
+			})
+			if clean {
+				scanned = rs.End()
+			}
+		}
+	}
+	good := true
+	ast.Inspect(fi.Decl.Body, func(k ast.Node) bool {
+		switch t := k.(type) {
+		case *ast.FuncLit:
+			return false
+		case *ast.ReturnStmt:
+			if len(t.Results) != 1 {
+				good = false
+				return true
+			}
+			r := ast.Unparen(t.Results[0])
+			if tv := info.Types[r]; tv.Value != nil {
+				if tv.Value.String() == "true" {
+					return true
+				}
+				// constant false: a top-level statement after a completed scan
+				top := false
+				for _, st := range fi.Decl.Body.List {
+					if st == ast.Stmt(t) {
+						top = true
+					}
+				}
+				if !(top && scanned != token.NoPos && t.Pos() > scanned) {
+					good = false
+				}
+				return true
+			}
+			if o := identObj(info, r); o == nil || !okFlags[o] {
+				good = false
+			}
+		}
+		return true
+	})
+	return good
 }
